@@ -450,10 +450,41 @@ var mutators = []mutator{
 	}},
 	{"linktype-any", func(r *vlib.Rand, sc *scenario) bool {
 		for i := range sc.cfg.ifs {
-			if sc.cfg.ifs[i].id != 0 || r.Chance(10) {
+			if sc.cfg.ifs[i].id != 0 { // interface 0 has no link type (no API sets linkTypes[0])
 				sc.cfg.ifs[i].lt = r.Range(0, 4)
 			}
 		}
+		return true
+	}},
+	{"xover-from-sibling-pair", func(r *vlib.Rand, sc *scenario) bool {
+		// multi-router AS: the packet is handed over by the sibling router that owns the ingress
+		// interface while still on the last hop of its segment, so THIS router performs the
+		// segment change; every (first-segment link type, second-segment link type) pair, valid
+		// MACs on both hops, egress an external interface of this router
+		if !sc.xover {
+			return false
+		}
+		in := sc.cfg.find(sc.travelIn(sc.local))
+		eg := sc.cfg.find(sc.travelEg(sc.local + 1))
+		if in == nil || eg == nil || in.id == 0 || eg.id == 0 {
+			return false
+		}
+		sib := r.Range(1, 2)
+		in.scope, in.link, in.up = scSib, sib, true
+		for i := range sc.cfg.ifs {
+			if sc.cfg.ifs[i].scope == scSib && sc.cfg.ifs[i].link == sib {
+				sc.cfg.ifs[i].up = true
+			}
+		}
+		eg.scope, eg.link, eg.up = scExt, 43, true
+		in.lt, eg.lt = r.Range(0, 4), r.Range(0, 4)
+		sc.inLink, sc.inIfID, sc.inScope = sib, 0, scSib
+		if sc.postX {
+			sc.postX = false
+			sc.currHF, sc.currINF = sc.local, sc.currINF-1
+		}
+		sc.rechain()
+		sc.kind = sc.kind[:2] + "/prex/sib"
 		return true
 	}},
 	{"alert-in", func(r *vlib.Rand, sc *scenario) bool {
